@@ -140,7 +140,7 @@ func firstPackets(thorough bool) []firstPacket {
 
 // C11: nothing before an accepted CONNECT.
 func C11(c *core.Ctx) {
-	c.Rep.Bound = "ENUM x HIST: every packet type as first packet, a CONNECT field product (protocol name x level, reserved/will flag inconsistencies, client identifiers, credentials), every (third) truncation of a valid CONNECT followed by a cut, by more packets or by silence until the connect timeout (virtual time); under an accepting and a rejecting authenticator; each followed by SUBSCRIBE '#' and a retained PUBLISH on the unaccepted connection and by probes through a witness and a later subscriber"
+	c.Rep.Bound = "ENUM x HIST: every packet type as first packet, a CONNECT field product (protocol name x level, reserved/will flag inconsistencies, client identifiers, credentials), every (third) truncation of a valid CONNECT followed by a cut, by more packets or by silence until the connect timeout (virtual time); under an accepting and a rejecting authenticator; each followed by SUBSCRIBE '#' and a retained PUBLISH on the unaccepted connection and by probes through a witness and a later subscriber; SCHED: the CONNACK is the first packet of an accepted connection (resumed session with a publish on its filter at the same time, requests pipelined behind the CONNECT), every schedule with <= 2 (quick) / 3 (thorough) deviations"
 	c.Rep.Rule = "oracle: CONNACK code as the statement says (bad protocol name: code 1 or close), closed after any non-zero code or other first packet, witness receives nothing, subscription tree / retained tree / session store unchanged (implementation dump compared), no library goroutine panics; non-trivial = first packets that are rejected"
 	comps := map[string]bool{"connect": true, "closed": true, "route": true, "retained": true, "noeffect": true, "stream": true}
 	fps := firstPackets(c.Thorough())
@@ -241,6 +241,10 @@ func C11(c *core.Ctx) {
 	}
 	c.Rep.Scenarios++
 	c11victim(c, comps)
+	if c.HasViolation() || c.Expired() {
+		return
+	}
+	c11sched(c)
 }
 
 // c11victim: a rejected CONNECT that names somebody else's client identifier
